@@ -117,7 +117,7 @@ ORTHO_BASES = [
     [[2, 3, 6], [3, -6, 2], [6, 2, -3]],
     [[0, 0, 1], [1, 0, 0], [0, 1, 0]],
 ]
-CELL_KINDS = ['diag', 'ortho_rot', 'lammps', 'general', 'strong', 'sheared']
+CELL_KINDS = ['diag', 'ortho_rot', 'lammps', 'general', 'strong', 'sheared', 'mild']
 SHEAR_FACTORS = [-2.5, -2.0, -1.5, -1.25, -1.125, -1.0, -0.875, -0.75, 0.75, 0.875, 1.0, 1.125, 1.25, 1.5, 2.0, 2.5, 0.0, 0.25]
 
 
@@ -146,6 +146,13 @@ def gen_cell(rng, kind):
             xz = rng.randint(int(-lx * 4), int(lx * 4)) / 8.0
             yz = rng.randint(int(-ly * 4), int(ly * 4)) / 8.0
             v = [[lx, 0.0, 0.0], [xy, ly, 0.0], [xz, yz, lz]]
+        elif kind == 'mild':
+            # near-cubic LAMMPS cell with small tilts: the regime of theorem gram_true_nearest (cover bound below every
+            # squared width), where EVERY in-cell pair gets its true nearest image
+            L = e(2, 12)
+            lx, ly, lz = [L + rng.randint(-1, 1) / 8.0 for _ in range(3)]
+            t = lambda: rng.randint(-int(L), int(L)) / 8.0
+            v = [[lx, 0.0, 0.0], [t(), ly, 0.0], [t(), t(), lz]]
         elif kind == 'strong':
             lx, ly, lz = e(0.5, 4), e(0.5, 4), e(0.5, 4)
             v = [[lx, 0.0, 0.0], [e(-3, 3) * lx, ly, 0.0], [e(-3, 3) * lx, e(-3, 3) * ly, lz]]
